@@ -827,6 +827,31 @@ static int cmdRandom(const char* outPath, long steps) {
 }
 
 // ---------------------------------------------------------------- run mode: the real run() thread against client threads
+// fire-and-forget requests of run mode: self-deleting, constructed in a per-client slot; "deleting" poisons the BusRequest part so
+// that a later write by another thread (a touch after completion) is seen when the client inspects the slot
+struct FReq : public BusRequest {
+  int idx; std::atomic<int>* deleted; MasterSymbolString* ms;
+  FReq(int i, MasterSymbolString* m, std::atomic<int>* d) : BusRequest(*m, true), idx(i), deleted(d), ms(m) {}
+  bool notify(result_t res, const SlaveSymbolString& sl) override {
+    char b[64]; snprintf(b, sizeof b, "[\"ntf\",%d,%d,", idx, (int)res); ev(std::string(b) + jb(sl) + ",0,1]");
+    return false;
+  }
+  ~FReq() override { char b[48]; snprintf(b, sizeof b, "[\"del\",%d,2]", idx); ev(b); }
+  static void operator delete(void* p) {
+    FReq* q = (FReq*)p; std::atomic<int>* d = q->deleted;
+    memset(p, 0xDD, sizeof(BusRequest));   // the slot stays allocated: nothing may write into it any more
+    d->store(1);
+  }
+  static void* operator new(size_t, void* slot) { return slot; }
+};
+static thread_local bool t_isClient = false;
+// hook called by Queue::push in the pushing thread (guarded in /repo by EBUSD_VERIF): a client that handed a request over is held
+// until the bus thread made some progress - the schedule "descheduled right after the hand-over" that sampling practically never hits
+extern "C" void ebusd_verif_after_push(void*) {
+  if (!g_runMode || !t_isClient) return;
+  long r0 = g_reads.load();
+  for (int k = 0; k < 200000 && g_reads.load() - r0 < 48; k++) sched_yield();
+}
 struct Client { int id; int ops; pthread_t th; std::atomic<long> startReads; std::atomic<int> busy; std::atomic<int> done; };
 static std::vector<Client*> g_clients;
 static std::atomic<int> g_abortRun(0);
@@ -844,11 +869,32 @@ static void crashHandler(int sig) {
 }
 static void* clientMain(void* arg) {
   Client* c = (Client*)arg;
+  t_isClient = true;
   vf::Rng rng(vf::seedFromEnv() * 1000 + c->id);
+  static MasterSymbolString fmaster[16];
+  alignas(16) static unsigned char fslot[16][sizeof(FReq) + 64];
+  static std::atomic<int> fdeleted[16];
   for (int k = 0; k < c->ops && !g_abortRun; k++) {
+    bool fireAndForget = rng.chance(1, 4);
     bool useSendAndWait = rng.chance(1, 2);
     c->startReads = g_reads.load(); c->busy = 1;
-    if (useSendAndWait) {
+    if (fireAndForget && c->id < 16) {
+      // a self-deleting broadcast request handed over with addRequest(request, false); the client then only watches the slot
+      int fi = (int)g_clients.size() + c->id;
+      MasterSymbolString* m = &fmaster[c->id]; m->clear();
+      m->push_back(C.own); m->push_back(0xFE); m->push_back(C.pbs[0]); m->push_back(C.sbs[0]); m->push_back(1); m->push_back((uint8_t)(0x40 | (k & 0x3f)));
+      fdeleted[c->id] = 0;
+      FReq* fq = new (fslot[c->id]) FReq(fi, m, &fdeleted[c->id]);
+      ev("[\"sub\"," + std::to_string(fi) + ",1," + jb(*m) + ",0]");
+      result_t res = g_h->addRequest(fq, false);
+      if (res != RESULT_OK) { ev("[\"bad\",\"fire-and-forget-request-refused\"," + std::to_string((int)res) + "]"); g_abortRun = 1; return nullptr; }
+      while (!fdeleted[c->id].load() && !g_abortRun) sched_yield();   // the watchdog ends the run if it is never deleted
+      if (g_abortRun) return nullptr;
+      for (int y = 0; y < 64; y++) sched_yield();
+      bool intact = true;
+      for (size_t b = 0; b < sizeof(BusRequest); b++) if (fslot[c->id][b] != 0xDD) intact = false;
+      if (!intact) { ev("[\"bad\",\"request-touched-after-deletion\"," + std::to_string(fi) + "]"); g_abortRun = 1; return nullptr; }
+    } else if (useSendAndWait) {
       MasterSymbolString m; m.push_back(C.own); m.push_back((uint8_t)(0x50 + c->id)); m.push_back(C.pbs[0]); m.push_back(C.sbs[0]); m.push_back(1); m.push_back((uint8_t)k);
       SlaveSymbolString sl;
       ev("[\"sawstart\"," + std::to_string(c->id) + "," + jb(m) + "]");
